@@ -111,7 +111,7 @@ def keepOf (O : Oracles) (q : AggStmt) (key : List Value) (subs : List (Nat × V
   | none => .ok true
 
 omit h in
-theorem resultRows_cons (q : AggStmt) (key : List Value) (subs : List (Nat × Value))
+theorem resultRows_cons_keepOf (q : AggStmt) (key : List Value) (subs : List (Nat × Value))
     (rest : List (List Value × List (Nat × Value))) (seen : List (List Value)) :
     resultRows O q ((key, subs) :: rest) seen =
       (rowOf O q key subs (enumFrom 0 q.items)).bind (fun row =>
@@ -156,7 +156,7 @@ theorem resultRows_distinct (h : SameAgg q q') (hd' : q'.distinct = true) (hd : 
   | nil => rfl
   | cons g rest ih =>
     obtain ⟨key, subs⟩ := g
-    rw [resultRows_cons, resultRows_cons, rowOf_same O h, keepOf_same O h, h.items, hd, hd']
+    rw [resultRows_cons_keepOf, resultRows_cons_keepOf, rowOf_same O h, keepOf_same O h, h.items, hd, hd']
     cases rowOf O q key subs (enumFrom 0 q.items) with
     | ok row =>
       simp only [Outcome.bind]
